@@ -209,7 +209,7 @@ def run(check, repo: Repo) -> None:
     # ---- calculate_origin --------------------------------------------------------------------------
     k = KAT(cfn).run()
     for n, m in k.clashes:
-        check.violated("C18-R1", f"calculate_origin: axis clash `{unparse(n)[:50]}`", m, omod.line(n))
+        check.violated("C18-R1", f"calculate_origin: axis clash `{unparse(n)[:50]}`", m, omod.line(n), definite=True)
     loop = next((n for n in walk_no_nested_defs(cfn) if isinstance(n, ast.For)), None)
     if loop is None:
         raise AnalysisError("calculate_origin: batch loop not found")
@@ -240,7 +240,7 @@ def run(check, repo: Repo) -> None:
     # ---- _set_intensities_com (vectorised and looped arms) --------------------------------------------
     ks = KAT(sfn).run()
     for n, m in ks.clashes:
-        check.violated("C18-R1", f"_set_intensities_com: axis clash `{unparse(n)[:50]}`", m, dmod.line(n))
+        check.violated("C18-R1", f"_set_intensities_com: axis clash `{unparse(n)[:50]}`", m, dmod.line(n), definite=True)
     arm_if = next((n for n in walk_no_nested_defs(sfn) if isinstance(n, ast.If) and unparse(n.test) in ("vectorized_calculation", "not vectorized_calculation")), None)
     if arm_if is None:
         raise AnalysisError("_set_intensities_com: vectorised/looped dispatch not found")
@@ -302,7 +302,7 @@ def run(check, repo: Repo) -> None:
     # ---- get_com_2d -------------------------------------------------------------------------------------
     kg = KAT(gfn).run()
     for n, m in kg.clashes:
-        check.violated("C18-R1", f"get_com_2d: axis clash `{unparse(n)[:50]}`", m, pmod.line(n))
+        check.violated("C18-R1", f"get_com_2d: axis clash `{unparse(n)[:50]}`", m, pmod.line(n), definite=True)
     st = [c for c in calls_in(gfn) if call_name(c) in ("np.stack", "torch.stack") and c.args and isinstance(c.args[0], (ast.List, ast.Tuple))]
     if len(st) != 1:
         raise AnalysisError("get_com_2d: coordinate stack not found")
@@ -421,7 +421,7 @@ def _shift_rule(check, mod, fn) -> None:
     check.assume("fitted origins and the target coordinate are (row, col) pairs (established by C18-R1 for the measured origins)")
     for n, m in k.clashes:
         check.violated("C18-R4", f"shift_origin_to: axis clash `{unparse(n)[:60]}`", m + ": non-square detectors are sampled at the wrong "
-                       "positions, the shift is no longer the circular roll", mod.line(n))
+                       "positions, the shift is no longer the circular roll", mod.line(n), definite=True)
     if not k.clashes:
         check.holds("C18-R4", "shift_origin_to: no axis clash between (row, col) pairs, components and extents", where=mod.line(fn))
     gs = [c for c in calls_in(fn) if (call_name(c) or "").endswith("grid_sample")]
